@@ -273,8 +273,8 @@ impl Property for C17 {
     }
     fn cases(&self, tier: Tier) -> u64 {
         match tier {
-            Tier::Quick => 300_000,
-            Tier::Thorough => 2_000_000,
+            Tier::Quick => 600_000,
+            Tier::Thorough => 3_000_000,
         }
     }
     fn required_labels(&self, _tier: Tier) -> Vec<&'static str> {
